@@ -3,17 +3,37 @@ import json
 import common
 
 PROPS = "RotoV.Props.C18"
+PROPS_USE = "RotoV.Props.C18Use"
 
 
 def search(ctx):
-    # boundary table first (it is the head of every run), then a bigger random run
+    # boundary table and the library!-built fixtures first (they are the head of every run), then a
+    # bigger random run.  The driver does not import Generated/FlattenUse.lean, so it builds (and the
+    # fixtures decide with a concrete use declaration) even when that extraction or its theorem broke.
+    ctx.lake_build(["rotov-driver"])
+    known = common.load_known(ctx.pid)
+    if any(common.match_known(known, v) is None for v in ctx.impl_violations):
+        return  # the quick run already holds a concrete failing input on the real code
     if ctx.build_harness("c18"):
         ctx.harness("c18", ["run", ctx.seed + 7919, "thorough"], timeout=3000, name="search:c18")
 
 
 def run(ctx):
-    ctx.extract(["keywords"])
-    ctx.prove(PROPS, extra_modules=["RotoV.Lemmas.Registration", "RotoV.Model.Registration"])
+    ctx.extract(["keywords", "flattenuse"])
+    # two theorem modules, so that a change to the macro breaks exactly the T5 obligations and a change to the
+    # lexer's keyword table exactly the others
+    ok1 = ctx.prove(PROPS, extra_modules=["RotoV.Lemmas.Registration", "RotoV.Lemmas.RegistrationUse",
+                                          "RotoV.Model.Registration"])
+    first = {k: ctx.coverage.get(k) for k in ("theorems", "nonvacuity_examples", "axioms")}
+    ok2 = ctx.prove(PROPS_USE, extra_modules=["RotoV.Lemmas.UseTree", "RotoV.Model.UseTree"])
+    if first["theorems"] and ok2:  # prove() overwrites these: report both modules
+        ctx.coverage["theorems"] = first["theorems"] + ctx.coverage["theorems"]
+        ctx.coverage["nonvacuity_examples"] += first["nonvacuity_examples"]
+        ctx.coverage["axioms"] = {**first["axioms"], **ctx.coverage["axioms"]}
+    elif first["theorems"]:
+        ctx.coverage.update(first)
+    if not (ok1 and ok2):
+        ctx.lake_build(["rotov-driver"])
     if ctx.build_harness("c18"):
         ctx.harness("c18", ["run", ctx.seed, ctx.tier], timeout=3000)
     ctx.trusted += [
@@ -23,11 +43,17 @@ def run(ctx):
         "hand-written model of Rt::add tied to the source by the differential run only (outcome incl. error kind, "
         "resolution of every probed path); the quantifier over libraries is sampled there",
         "script-side name lookup is modelled for a fresh script at top level (root declarations, then root imports)",
+        "library!: flatten_use_tree is regenerated from macros/src/lib.rs by a transliterator for list-functional Rust "
+        "(extract/src/targets/c18.rs, mod listfn) and proved equal to the specification for all use trees; syn's parse "
+        "of the `use` declaration into syn::UseTree and the rest of the expansion (to_tokens) are tied by the "
+        "library!-built fixtures only (hook dump of the built Library vs the written tree, every imported name "
+        "resolved from a script); a leading `self::` / `super::` / `crate::` segment is not modelled",
     ]
     return ctx.finish(
         level="proof",
         rule="a class is a distinct (number of adds, module depth, injected defect kind, outcome per add, longest use "
-             "path, number of probed paths) signature of a session; every session is run on 2-24 item orders",
+             "path, number of probed paths) signature of a session, or a distinct shape of a `use` tree handed to library! "
+             "(nesting of groups and member path lengths); every session is run on 2-24 item orders",
         search=search,
     )
 
